@@ -902,7 +902,9 @@ def make_pipeline_from_args(  # noqa: C901
                 interleaved = False
             steps.append(
                 PairedEndSink(
-                    outfiles.open_record_writer(*paths, interleaved=interleaved)
+                    outfiles.open_record_writer(
+                        *paths, interleaved=interleaved, force_fasta=args.fasta
+                    )
                 )
             )
         else:
